@@ -60,7 +60,7 @@ fn insert_err_kind(e: &matchit::InsertError) -> &'static str {
 // ---------------------------------------------------------------------------------------------
 // small syn helpers
 
-struct Unread(Vec<String>);
+pub(crate) struct Unread(pub(crate) Vec<String>);
 impl Unread {
   fn add(&mut self, what: &str, text: String) {
     let t: String = text.chars().take(200).collect();
@@ -569,10 +569,30 @@ fn header_encode(file: &syn::File, st: &str, un: &mut Unread) -> Value {
           }
           if !ok {
             un.add("header value expression", norm(l));
+            // keep the insertion (constant, conditional or not) with the expression text: C03 names it
+            let text = match &init {
+              Some(Expr::Try(t)) => match &*t.expr {
+                Expr::Call(c) if norm(&*c.func) == "http::HeaderValue::try_from" && c.args.len() == 1 => norm(&c.args[0]),
+                e => norm(e),
+              },
+              Some(e) => norm(e),
+              None => String::new(),
+            };
+            pending = Some((json!({"form": "other", "text": text}), String::new()));
           }
         }
         Stmt::Expr(Expr::MethodCall(mc), _) if mc.method == "insert" && norm(&*mc.receiver) == "map" && mc.args.len() == 2 && norm(&mc.args[1]) == "header_value" => {
           match pending.take() {
+            Some((mut form, _)) if form["form"] == "other" => {
+              // the member the expression starts from: the `if let` binding, or the leading `headers.<member>`
+              let lead = form["text"].as_str().unwrap_or("").trim_start_matches('&').strip_prefix("headers.").map(|r| {
+                r.chars().take_while(|c| c.is_alphanumeric() || *c == '_' || *c == '#').collect::<String>()
+              });
+              form["field"] = json!(ctx.map(str::to_string).or(lead));
+              form["const"] = json!(norm(&mc.args[0]));
+              form["optional"] = json!(ctx.is_some());
+              out.push(form);
+            }
             Some((form, acc)) => {
               let field = match ctx {
                 Some(f) if acc == "value" => Some(f.to_string()),
@@ -747,6 +767,87 @@ fn body_extractor(pat: &str, ty: &str) -> Option<Value> {
   Some(json!({"kind": kind, "optional": opt, "ty": payload}))
 }
 
+/// query section of ONE client method: the `…Query` struct behind `.query(&request.query)`, member by member
+pub(crate) fn client_query(ct: &syn::File, m: &Value, req_ty: &str, un: &mut Unread, enum_names: &mut Vec<String>) -> Value {
+  let qargs: Vec<&str> = m["query"].as_array().into_iter().flatten().filter_map(Value::as_str).collect();
+  let query_ty = field_type(ct, req_ty, "query");
+  if qargs.is_empty() {
+    json!({"mode": "none"})
+  } else if qargs == ["&request.query"] {
+    match query_ty.as_deref().and_then(|t| struct_fields(ct, t)) {
+      Some(fs) => {
+        let fs = annotate_fields(fs);
+        enum_names_of(&fs, enum_names);
+        json!({"mode": "struct", "ty": query_ty, "fields": fs})
+      }
+      None => {
+        un.add("client query struct", format!("{query_ty:?}"));
+        json!({"mode": "other"})
+      }
+    }
+  } else {
+    // a literal query string in the template (`set_query`) is outside the modelled request
+    json!({"mode": "other", "args": qargs})
+  }
+}
+
+/// header section of ONE client method: the `…Header` struct and the insertions of `TryFrom<&…Header> for HeaderMap`
+pub(crate) fn client_headers(ct: &syn::File, m: &Value, req_ty: &str, name: &str, un: &mut Unread, enum_names: &mut Vec<String>) -> Value {
+  let text = m["text"].as_str().unwrap_or("");
+  let header_ty = field_type(ct, req_ty, "header");
+  let headers_used = m["headers"].as_bool().unwrap_or(false);
+  if headers_used {
+    if !text.contains("headers(http::HeaderMap::try_from(&request.header)") {
+      un.add("client headers call", name.to_string());
+    }
+    match header_ty.as_deref() {
+      Some(h) => {
+        let enc = header_encode(ct, h, un);
+        let fs = struct_fields(ct, h).map(annotate_fields).unwrap_or(Value::Null);
+        enum_names_of(&fs, enum_names);
+        if enc.is_null() {
+          un.add("client header map impl", h.to_string());
+        }
+        json!({"used": true, "ty": h, "fields": fs, "encode": enc})
+      }
+      None => {
+        un.add("client header struct", name.to_string());
+        json!({"used": true})
+      }
+    }
+  } else {
+    json!({"used": false, "declared": header_ty})
+  }
+}
+
+/// C03 (`client.method`): wire layout of every client method of ONE generator run — query struct members (serde
+/// key, `serde_as` adapter, Option-ness, `skip_serializing_none`), header insertions (constant, value form,
+/// conditional or not), the header-name constants with their values; unrecognised constructs under `unreadable`.
+pub(crate) fn client_wire(types_code: &str, methods: &Value) -> Value {
+  let ct = match syn::parse_file(types_code) {
+    Ok(f) => f,
+    Err(e) => return json!({"err": format!("emitted types file does not parse: {e}")}),
+  };
+  let mut un = Unread(vec![]);
+  let mut enum_names: Vec<String> = vec![];
+  let cconsts = consts(&ct, &mut un);
+  let mut ops = vec![];
+  for m in methods.as_array().into_iter().flatten() {
+    let name = m["name"].as_str().unwrap_or("").to_string();
+    let req_ty = m["request_ty"].as_str().unwrap_or("").to_string();
+    // a literal `?a=b` in the path template is installed with `set_query` before the parameters are appended:
+    // reported apart (`preset`), the parameter pairs are read as usual
+    let mut m2 = m.clone();
+    let all: Vec<String> = m["query"].as_array().into_iter().flatten().filter_map(|x| x.as_str().map(str::to_string)).collect();
+    let preset: Vec<&String> = all.iter().filter(|a| a.starts_with("set_query:")).collect();
+    m2["query"] = json!(all.iter().filter(|a| !a.starts_with("set_query:")).collect::<Vec<_>>());
+    let query = client_query(&ct, &m2, &req_ty, &mut un, &mut enum_names);
+    let headers = client_headers(&ct, m, &req_ty, &name, &mut un, &mut enum_names);
+    ops.push(json!({"name": name, "query": query, "headers": headers, "preset": preset}));
+  }
+  json!({"ops": ops, "consts": cconsts, "unreadable": un.0})
+}
+
 fn eval_req(input: &Value) -> OpResult {
   let mut ci = input.clone();
   ci["mode"] = json!("client-mod");
@@ -806,28 +907,8 @@ fn eval_req(input: &Value) -> OpResult {
       }
     };
     // query
-    let qargs: Vec<&str> = m["query"].as_array().into_iter().flatten().filter_map(Value::as_str).collect();
     let path_ty = field_type(&ct, &req_ty, "path");
-    let query_ty = field_type(&ct, &req_ty, "query");
-    let header_ty = field_type(&ct, &req_ty, "header");
-    let query = if qargs.is_empty() {
-      json!({"mode": "none"})
-    } else if qargs == ["&request.query"] {
-      match query_ty.as_deref().and_then(|t| struct_fields(&ct, t)) {
-        Some(fs) => {
-          let fs = annotate_fields(fs);
-          enum_names_of(&fs, &mut enum_names);
-          json!({"mode": "struct", "ty": query_ty, "fields": fs})
-        }
-        None => {
-          un.add("client query struct", format!("{query_ty:?}"));
-          json!({"mode": "other"})
-        }
-      }
-    } else {
-      // a literal query string in the template (`set_query`) is outside the modelled request
-      json!({"mode": "other", "args": qargs})
-    };
+    let query = client_query(&ct, m, &req_ty, &mut un, &mut enum_names);
     // path values
     let path = match path_ty.as_deref().and_then(|t| struct_fields(&ct, t)) {
       Some(fs) => {
@@ -838,29 +919,7 @@ fn eval_req(input: &Value) -> OpResult {
       None => Value::Null,
     };
     // headers
-    let headers_used = m["headers"].as_bool().unwrap_or(false);
-    let headers = if headers_used {
-      if !text.contains("headers(http::HeaderMap::try_from(&request.header)") {
-        un.add("client headers call", name.clone());
-      }
-      match header_ty.as_deref() {
-        Some(h) => {
-          let enc = header_encode(&ct, h, &mut un);
-          let fs = struct_fields(&ct, h).map(annotate_fields).unwrap_or(Value::Null);
-          enum_names_of(&fs, &mut enum_names);
-          if enc.is_null() {
-            un.add("client header map impl", h.to_string());
-          }
-          json!({"used": true, "ty": h, "fields": fs, "encode": enc})
-        }
-        None => {
-          un.add("client header struct", name.clone());
-          json!({"used": true})
-        }
-      }
-    } else {
-      json!({"used": false, "declared": header_ty})
-    };
+    let headers = client_headers(&ct, m, &req_ty, &name, &mut un, &mut enum_names);
     // body
     let encs: Vec<&Value> = m["body"].as_array().into_iter().flatten().collect();
     let body_ty = field_type(&ct, &req_ty, "body");
